@@ -66,7 +66,7 @@ def run(ctx):
                traces_validated_against_impl=len(lines), evaluations=len(lines) + sum(len(l["post"]) for l in lines), distinct_nontrivial=len(keys),
                rule="inputs = every state of spec/CorruptGen.tla (five base messages incl. nested groups x every length field at every depth set to each boundary value, every flag bit flipped, truncation at every offset; thorough: pairs) "
                     "+ lengths claimed but not supplied (message and AVP) + groups nested 1..4096 deep, and the deepest nest a 16 MiB message can hold in a child process (thorough: further depths in child processes) + seeded random byte strings and random mutations of valid messages; each offered to ReadMessage, DecodeHeader, "
-                    "DecodeAVP, DecodeGrouped and every datatype decoder, with String / PrettyDump / Serialize / Unmarshal / FindAVP(s) / FindAVPsWithPath on every decoded message; every input differs from a valid message (non-trivial); distinct by (mutation, entry point) Since extended: follow-ups WriteTo / Answer / Len; the deepest nest a 16 MiB message can hold, in a child process whose stack is limited to 16 x the input.",
+                    "DecodeAVP, DecodeGrouped and every datatype decoder, with String / PrettyDump / Serialize / Unmarshal / FindAVP(s) / FindAVPsWithPath on every decoded message; every input differs from a valid message (non-trivial); distinct by (mutation, entry point) Since extended: follow-ups WriteTo / Answer / Len; the deepest nest a 16 MiB message can hold, in a child process whose stack is limited to 16 x the input; typed inputs (wrong-length payloads of every type, V flag with vendor 0 and no payload) inspected through every consumer; a flood of unknown AVPs decoded by four goroutines; groups with up to 1024 grouped siblings.",
                samples=[dict(recipe=l["recipe"], entry=l["entry"], n=l["n"], outcome=l["outcome"], alloc_kb=l["alloc_kb"], hex=l["hex"]) for l in lines[7:len(lines):max(1, len(lines) // 3)]][:3],
                exhaustive=False, not_judged_slow=slow, rejected=len(bad), known_finding_hits={k: n for k, (n, _) in v.hits.items()})
     rc = v.finish()
